@@ -14,8 +14,23 @@ mod fmt {
     use crate::parsing::Expr;
     use proc_macro2::TokenStream;
     use quote::{format_ident, ToTokens};
-    use syn::{parse::{Parse, ParseStream}, punctuated::Punctuated, token};
+    use syn::{ext::IdentExt as _, parse::{Parse, ParseStream}, punctuated::Punctuated, token};
 @ITEMS@
+
+    /// `bounded_types(fields)`: the (field type id, first byte and length of the trait name) pairs in the order produced
+    pub fn bounds(lit: syn::LitStr, args: Vec<(Option<syn::Ident>, Expr)>, fields: &syn::Fields, out: &mut [(u8, u8, u8); 6]) -> usize {
+        let mut p = Punctuated::new();
+        for (alias, expr) in args {
+            p.push(FmtArgument { alias: alias.map(|a| (a, token::Eq { idx: 0 })), expr });
+        }
+        let attr = FmtAttribute { lit, comma: None, args: p };
+        let mut n = 0;
+        for (ty, tr) in attr.bounded_types(fields) {
+            if n < out.len() { out[n] = (ty.0, tr.as_bytes()[0], tr.len() as u8); }
+            n += 1;
+        }
+        n
+    }
 
     /// the attribute `#[display(<lit>, <args>)]` as the derive holds it after parsing
     pub fn decide(lit: syn::LitStr, args: Vec<(Option<syn::Ident>, Expr)>) -> Option<(Expr, syn::Ident)> {
@@ -85,6 +100,115 @@ fn build_args(cfg: u32) -> (usize, Vec<(Option<syn::Ident>, Expr)>) {
         k += 1;
     }
     (nargs, args)
+}
+
+static NAMES4: [&[u8]; 4] = [b"a", b"b", b"_0", b"_1"];
+
+fn ident4(which: u32, idx: u32) -> syn::Ident {
+    let n = NAMES4[(which & 3) as usize];
+    syn::Ident { idx, keyword: false, text: n.as_ptr(), text_len: n.len() }
+}
+
+/// C04 (placeholder -> (field type, trait) mapping): `bounded_types`.
+/// `cfg`: bits 0-1 number of arguments (0..=2); bit 2 the fields are unnamed `(T0, T1)` (else named `{ a: T0, b: T1 }`);
+///   per argument k (6 bits from bit 3 + 6k): bit0 has alias, bits1-2 alias name, bit3 the expression is a single identifier, bits4-5 its name
+///   (names: a, b, _0, _1).
+/// A placeholder needs a bound when the argument format_args! resolves it to (the explicit `name = expr` argument, else the variable of that name,
+/// for a named placeholder; the i-th argument of the list, named or not, for a positional / implicit one) is a single identifier that names a
+/// field: `a` / `b` of a named struct, `_0` / `_1` of a tuple struct.  The bound is (that field's type, the placeholder's trait).  Literals in which
+/// a placeholder or identifier argument names no binding of the expansion (`{c}`, `{_00}`, `a` in a tuple struct) do not compile: nothing is
+/// demanded for them.
+/// Codes: 0 agree (or std rejects the literal / an index is out of range); 8 a different number of bounds; 9 a bound on a different field type or
+/// for a different trait
+#[no_mangle]
+pub unsafe extern "C" fn probe_bounds(ptr: *const u8, len: usize, digest: *mut u8, cfg: u32) -> u32 {
+    let bytes = core::slice::from_raw_parts(ptr, len);
+    let d = core::slice::from_raw_parts_mut(digest, 64);
+    let nargs = (cfg & 3) as usize;
+    let unnamed = (cfg >> 2) & 1 != 0;
+    let argbits = |k: usize| (cfg >> (3 + 6 * k)) & 63;
+    let mut args: Vec<(Option<syn::Ident>, Expr)> = Vec::new();
+    let mut k = 0;
+    while k < nargs && k < 2 {
+        let a = argbits(k);
+        let alias = if a & 1 != 0 { Some(ident4((a >> 1) & 3, 100 + k as u32)) } else { None };
+        let expr = if a & 8 != 0 { Expr::Ident(ident4((a >> 4) & 3, 10 + k as u32)) } else { Expr::Other(proc_macro2::TokenStream { first: 10 + k as u32, n: 3, in_order: true }) };
+        args.push((alias, expr));
+        k += 1;
+    }
+    let mk = |name: Option<u32>, ty: u8| syn::Field { ident: name.map(|n| ident4(n, 200)), ty: syn::Type(ty) };
+    let mut list = syn::punctuated::Punctuated::new();
+    let fields = if unnamed {
+        list.push(mk(None, 0)); list.push(mk(None, 1));
+        syn::Fields::Unnamed(syn::FieldsUnnamed { unnamed: list })
+    } else {
+        list.push(mk(Some(0), 0)); list.push(mk(Some(1), 1));
+        syn::Fields::Named(syn::FieldsNamed { named: list })
+    };
+    let mut got = [(0u8, 0u8, 0u8); 6];
+    let gn = fmt::bounds(syn::LitStr { ptr, len }, args, &fields, &mut got);
+    d[0] = gn as u8;
+    let r = reference(bytes);
+    if !r.ok || r.n > MAXPH { return 0; }
+    // which field does an identifier name?
+    let field_of = |name: &[u8]| -> Option<u8> {
+        if unnamed {
+            if name == b"_0" { Some(0) } else if name == b"_1" { Some(1) } else { None }
+        } else if name == b"a" { Some(0) } else if name == b"b" { Some(1) } else { None }
+    };
+    let mut want = [(0u8, 0u8, 0u8); 6];
+    let mut wn = 0usize;
+    let mut i = 0;
+    while i < r.n {
+        let ph = &r.ph[i];
+        let mut target: Option<u8> = None;
+        if ph.kind == K_NAME {
+            let name = &bytes[ph.a..ph.b];
+            let mut explicit: Option<usize> = None;
+            let mut k = 0;
+            while k < nargs {
+                let a = argbits(k);
+                if a & 1 != 0 && name == NAMES4[((a >> 1) & 3) as usize] && explicit.is_none() { explicit = Some(k); }
+                k += 1;
+            }
+            match explicit {
+                Some(k) => {
+                    let a = argbits(k);
+                    if a & 8 != 0 {
+                        target = field_of(NAMES4[((a >> 4) & 3) as usize]);
+                        // an identifier that names no binding of the expansion: the program does not compile, nothing is demanded
+                        if target.is_none() { return 0; }
+                    }
+                }
+                None => {
+                    target = field_of(name);
+                    if target.is_none() { return 0; }
+                }
+            }
+        } else {
+            let idx = if ph.kind == K_INDEX { ph.a } else { ph.pos };
+            if idx >= nargs { return 0; }
+            let a = argbits(idx);
+            if a & 8 != 0 {
+                target = field_of(NAMES4[((a >> 4) & 3) as usize]);
+                if target.is_none() { return 0; }
+            }
+        }
+        if let Some(f) = target {
+            let (c0, l) = trait_sig(ph.ty);
+            if wn < 6 { want[wn] = (f, c0, l); }
+            wn += 1;
+        }
+        i += 1;
+    }
+    d[1] = wn as u8;
+    if gn != wn { return 8; }
+    let mut j = 0;
+    while j < wn && j < 6 {
+        if got[j] != want[j] { return 9; }
+        j += 1;
+    }
+    0
 }
 
 /// C07 (decision half): which placeholders of the literal refer to the argument named `a` - "mentions `_variant` as a placeholder or as an
